@@ -153,7 +153,8 @@ def run(ctx):
             if t.stores['current_mech'][-1] == ('obj',):
                 offered = False
                 for c, pol in t.path.cond:
-                    if kind(c) == 'cmp' and c[1] == 'in' and pol and \
+                    if kind(c) == 'cmp' and c[1] in ('in', 'not in') and \
+                            (c[1] == 'in') == pol and \
                             contains(c[3], lambda x: x == (
                                 'attr', ('param', 'self'), 'mechanisms')
                                 or kind(x) == 'inst'):
